@@ -149,8 +149,10 @@ def run_chunk(exe, ml, wfile, wdims, scripts, derived, timeout=900):
     lines = so.split("\n")
     mode = lines[0].split()[1] if lines and lines[0].startswith("MODE") else "?"
     hs = split_hist(lines)
-    if len(hs) != len(scripts):
-        return None, "harness produced %d histories for %d scripts" % (len(hs), len(scripts))
+    # blocks of real searches (command G, hook mode) follow the block of the script that ran them
+    is_search = [any(l.startswith("T G ") and len(l.split()) > 3 for l in h[:3]) for h in hs]
+    if len(hs) - sum(is_search) != len(scripts):
+        return None, "harness produced %d histories for %d scripts" % (len(hs) - sum(is_search), len(scripts))
     ops = ["W %s %d %d" % (wfile, wdims[0], wdims[1])]
     for h in hs:
         ops += [l[3:] for l in h if l.startswith("OP ")]
@@ -160,14 +162,17 @@ def run_chunk(exe, ml, wfile, wdims, scripts, derived, timeout=900):
     mlines = [l for l in so2.split("\n") if l]
     res = []
     k = 0
-    for s, h in zip(scripts, hs):
+    si = -1
+    for h, srch in zip(hs, is_search):
+        if not srch:
+            si += 1
         real = [l for l in h if l.startswith("R ")]
         nd = sum(1 for l in h if l.startswith("OP D"))
         model = mlines[k:k + nd]
         k += nd
-        res.append(dict(script=s, real=real, model=model, trace=[l for l in h if l.startswith("T ")],
+        res.append(dict(script=scripts[si], real=real, model=model, trace=[l for l in h if l.startswith("T ")],
                         nops=sum(1 for l in h if l.startswith("OP ") and not l.startswith("OP D")), mode=mode,
-                        ops=[l for l in h if l.startswith("OP ")]))
+                        ops=[l for l in h if l.startswith("OP ")], search=srch))
     if k != len(mlines):
         return None, "model printed %d lines, expected %d" % (len(mlines), k)
     return res, None
@@ -224,7 +229,11 @@ def measure(ctx, h):
         prev_depth = depth
     for t in h["trace"]:
         f = t.split()
-        if f[1] == "M" and len(f) > 3:
+        if f[1] == "S" and len(f) > 4:
+            ctx.count("real_searches")
+            ctx.count("real_search_nodes", int(f[2]))
+            ctx.count("real_search_evaluations_vs_fresh", int(f[3]))
+        elif f[1] == "M" and len(f) > 3:
             ctx.count("move_" + f[3])
         elif f[1] in ("U", "N", "X", "A", "B", "Y", "Z", "R", "L", "E", "Q") and not t.endswith("skip"):
             ctx.count("action_" + f[1] + ("_" + f[2] if f[1] == "U" and len(f) > 2 else ""))
@@ -405,6 +414,15 @@ def run(ctx):
                 scripts.append(s)
     ctx.count("corpus_histories", len(scripts))
     scripts += [gen_script(rng, n_act, have_hook) for _ in range(n_hist)]
+    if have_hook:   # real searches (one thread): the op stream of the search's own evaluator is a history
+        n_search = ctx.scale(20, 600)
+        first = len(scripts) - n_hist
+        for i in rng.sample(range(first, len(scripts)), min(n_search, n_hist)):
+            sc = scripts[i]
+            sc.insert(rng.randint(1, min(len(sc), 40)), "G %d %d" % (rng.choice([2, 3, 4, 6]), rng.choice([200, 600, 1500])))
+    ctx.notes["real_search_streams"] = ("recorded through the H4 hook (accumulators compared with a from-scratch computation at "
+                                        "every evaluation the search performs)" if have_hook else
+                                        "not available: needs the H4 hook (hooks/h4-nn-ops.patch) in nneval.cpp")
     jobs = []       # (net kind, derived flag, chunk of scripts)
     CH = max(1, len(scripts) // (NCPU * 2))
     for i in range(0, len(scripts), CH):
@@ -540,69 +558,91 @@ def run(ctx):
         ctx.violation("evalPos returned a cached value that differs from the un-cached one and is not explained by a "
                       "change of contempt", {"cache": cache_other},
                       key="cache:" + hashlib.sha1("\n".join(cache_other["script"]).encode()).hexdigest()[:16])
-    for h, (kind, detail) in specfails[:3]:
-        fen = detail.split(" ", 8)[-1] if " Q " in detail else detail.split(" ", 5)[-1]
-        ctx.violation("%s: %s" % (kind, detail), {"script": h["script"], "net": h["net"], "trace_line": detail},
-                      key="%s:%s:%s" % (kind, h["net"], fen.replace(" ", "_")))
     if variant_fail:
         ctx.violation("SIMD build variant %s differs from the generic build" % variant_fail["variant"],
                       {"variant": variant_fail, "scripts": vscripts[:3]},
                       key="variant:%s:%s" % (variant_fail["variant"], variant_fail.get("generic")))
     corr_broken = bool(disagreements) or bool(cache_dis) or inconsistent > 0
-    if not proof_broken and not corr_broken:
-        return
-    # (5) finder: shrink the first disagreement, then implementation vs fresh evaluator after EVERY action
+
+    def impl_trace(k, script):
+        rc, so, se = sh([exes[k], "hist", "derived"], input="\n".join(script) + "\n", timeout=300)
+        if rc != 0:
+            return dict(trace=["T E 0 0 FRESHDIFF harness-crash rc=%d %s" % (rc, se[-200:].replace("\n", " "))])
+        return dict(trace=[l for l in so.split("\n") if l.startswith("T ")])
+
+    reported = set()
+
+    def report_failing(k, script, replay):
+        """shrink a history on which the implementation contradicts the specification, report it"""
+        small = shrink(lambda sx: impl_trace(k, sx), script, lambda x: bool(spec_failures(x)), budget=ctx.scale(60, 300))
+        hx = impl_trace(k, small)
+        sfs = spec_failures(hx)
+        if not sfs:
+            small, sfs = script, spec_failures(impl_trace(k, script))
+        kind, detail = sfs[0]
+        fen = detail.split(" ", 8)[-1] if detail.startswith("T Q") else detail.split(" ", 5)[-1]
+        replay = dict(replay)
+        replay["failing_input"] = {"net": k, "script": small, "kind": kind, "trace_line": detail}
+        if (kind, fen) in reported:
+            return
+        reported.add((kind, fen))
+        ctx.violation("static evaluation is not a function of the position / not symmetric: %s: %s" % (kind, detail), replay,
+                      key="%s:%s:%s" % (kind, k, fen.replace(" ", "_")))
+
     replay = {"broken_proof": info if proof_broken else None, "disagreement": None, "cache_disagreement": cache_dis,
               "inconsistent_streams": inconsistent}
-    found = None
-    cand = []
+    small_dis = None
     if disagreements:
         h, d = disagreements[0]
         def run_one(s):
-            r, err = run_chunk(exes[h["net"]], ml, wfiles[h["net"]][0], wfiles[h["net"]][1], [s], h["mode"] != "hook", timeout=120)
-            return r[0] if r else None
-        small = shrink(run_one, h["script"], lambda x: first_diff(x) is not None, budget=ctx.scale(80, 400))
-        hs = run_one(small)
+            r, err = run_chunk(exes[h["net"]], ml, wfiles[h["net"]][0], wfiles[h["net"]][1], [s], h["mode"] != "hook", timeout=300)
+            if not r:
+                return None
+            bad = [x for x in r if first_diff(x) is not None]
+            return bad[0] if bad else r[0]
+        small_dis = shrink(run_one, h["script"], lambda x: first_diff(x) is not None, budget=ctx.scale(80, 400))
+        hs = run_one(small_dis)
         ds = first_diff(hs) if hs else None
-        replay["disagreement"] = {"net": h["net"], "mode": h["mode"], "script": small, "original_script": h["script"],
+        replay["disagreement"] = {"net": h["net"], "mode": h["mode"], "script": small_dis, "original_script": h["script"],
                                   "state_line": ds, "real": hs["real"][ds] if hs and ds is not None and ds < len(hs["real"]) else None,
                                   "model": hs["model"][ds] if hs and ds is not None and ds < len(hs["model"]) else None,
                                   "ops": hs["ops"] if hs else None, "count": len(disagreements)}
-        cand = [(h["net"], small)] + [(x["net"], x["script"]) for x, _ in disagreements[:20]]
-    for _ in range(ctx.scale(40, 400)):
-        cand.append((rng.choice(nets)[0], gen_script(rng, n_act, False)))
-    def dense(s):       # evaluation (vs fresh evaluator) and evalPos queries after every action
-        out = [s[0]]
-        for a in s[1:]:
+    if specfails:
+        # the main run already contains evaluations that contradict the specification
+        seen = set()
+        for h, (kind, detail) in specfails:
+            if kind in seen or len(seen) >= 2:
+                continue
+            seen.add(kind)
+            report_failing(h["net"], h["script"], replay)
+        return
+    if not proof_broken and not corr_broken:
+        return
+    # (5) finder: implementation vs fresh evaluator / symmetric positions, aimed at the disagreement
+    cand = []
+    if disagreements:
+        hnet = disagreements[0][0]["net"]
+        for pos in range(1, len(small_dis) + 1):           # probe the shrunk history at every point
+            cand.append((hnet, small_dis[:pos] + ["E", "Q"] + small_dis[pos:]))
+        cand += [(x["net"], x["script"]) for x, _ in disagreements[:20]]
+    def dense(sx):       # evaluation (vs fresh evaluator) and evalPos queries after every action
+        out = [sx[0]]
+        for a in sx[1:]:
             out.append(a)
             if a not in ("E", "Q"):
-                out.append("E")
-                out.append("Q")
+                out += ["E", "Q"]
         return out
-    def impl_vs_spec(c):
-        k, s = c
-        rc, so, se = sh([exes[k], "hist", "derived"], input="\n".join(dense(s)) + "\n", timeout=300)
-        tr = [l for l in so.split("\n") if l.startswith("T ")]
-        fails = spec_failures(dict(trace=tr))
-        if rc != 0:
-            return (k, s, ("harness-crash", "rc=%d %s" % (rc, se[-300:])))
-        return (k, s, fails[0]) if fails else None
+    for _ in range(ctx.scale(40, 400)):
+        sx = gen_script(rng, n_act, False)
+        cand.append((rng.choice(nets)[0], dense(sx) if rng.random() < 0.5 else sx))
+    found = None
     with ThreadPoolExecutor(max_workers=NCPU) as ex:
-        for r in ex.map(impl_vs_spec, cand):
-            if r and not found:
-                found = r
+        for c, tr in zip(cand, ex.map(lambda c: impl_trace(c[0], c[1]), cand)):
+            if spec_failures(tr) and not found:
+                found = c
     ctx.count("finder_histories_vs_fresh_evaluator", len(cand))
     if found:
-        k, s, (kind, detail) = found
-        def run_impl(sx):
-            rc, so, se = sh([exes[k], "hist", "derived"], input="\n".join(dense(sx)) + "\n", timeout=120)
-            return dict(trace=[l for l in so.split("\n") if l.startswith("T ")]) if rc == 0 else None
-        small = shrink(run_impl, s, lambda x: bool(spec_failures(x)), budget=ctx.scale(60, 300))
-        hx = run_impl(small)
-        sf = spec_failures(hx)[0] if hx and spec_failures(hx) else (kind, detail)
-        replay["failing_input"] = {"net": k, "script": dense(small), "kind": sf[0], "trace_line": sf[1]}
-        ctx.violation("static evaluation depends on the history: %s: %s" % sf, replay,
-                      key="hist:%s:%s" % (k, hashlib.sha1("\n".join(small).encode()).hexdigest()[:16]))
+        report_failing(found[0], found[1], replay)
     else:
         what = []
         if proof_broken:
